@@ -127,7 +127,7 @@ class TranscriptInterval(AbstractFeatureInterval):
         self._strand = strand
         self._parent_or_seq_chunk_parent = parent_or_seq_chunk_parent
         self.start = self.genomic_start = exon_starts[0]
-        self.end = self.genomic_end = exon_ends[-1]
+        self.end = self.genomic_end = max(exon_ends)
 
         self._is_primary_feature = is_primary_tx
         self.transcript_id = transcript_id
